@@ -6,7 +6,7 @@ PID = "C03"
 MODULES = ["BeffVerif.Props.C03", "BeffVerif.Props.C03NoThrow", "BeffVerif.Props.C03Report", "BeffVerif.Props.C03Parse", "BeffVerif.Props.C03Declared", "BeffVerif.Props.C03Idem"]
 AUDIT = "BeffVerif/Audit/C03.lean"
 TAGS = ("c03.",)
-HYP = {"NoProtoNamedKeys": "D28", "IntersectionsOfObjects": "D29", "NoSplitIntersection": "D32", "NoAccessorNamedProps": "D33"}
+HYP = {"NoProtoNamedKeys": "D28", "IntersectionsOfObjects": "D29", "NoSplitIntersection": "D32", "NoAccessorNamedProps": "D33", "NoLaxObjectBesideBuiltin": "D33b"}
 OPEN = [
     "parse_revalidates / parse_projection / parse_idempotent / keyOrder_only at full strength: false on the current code (D28, D29: negations proved in Props/C03.lean); the _partial versions under noProtoNamedProps ∧ intersectionsOfObjects are not yet proved — covered by the correspondence + JS property oracle",
     "no_foreign_throw is a theorem for all three entry points in a closed environment (validate_no_throw, report_no_throw, parseAV_no_throw after a successful validation, hence safeParse_no_throw and parse_only_documented_failure: Props/C03NoThrow, C03Report, C03Parse); outside the model: exceptions of the JavaScript engine the model has no counterpart for (getters, proxies, revoked objects, `toJSON` of non-Date objects inside deduplicateErrors — guarded since fix D35, values whose own `constructor` / `toString` is not a function — covered by the correspondence since round 4)",
